@@ -160,7 +160,7 @@ def main(run):
                 run.violation(e, {"call": c["cmd"], "implementation": c["impl"]})
         for what, c, m in run.differential(cs):
             run.violation(what, {"call": c["cmd"][:2000], "implementation": c["impl"][:3000], "model": m[:3000]})
-        if not run.violations:
+        if not run.concrete():
             for e, call, got in lost_ack_cases(run)[:1]:
                 run.violation(e, {"call": call, "implementation": got})
     else:
